@@ -10,7 +10,7 @@ def main():
     rl = 20
     only = specs = None
     BASE_VC = ['error', 'constants', 'utils', 'types']
-    BASE_SPEC = ['spec_cores', 'verif_extern', 'verif_spec', 'verif_types', 'verif_prelude', 'spec_poly1305', 'spec_aead', 'spec_curve', 'spec_hash']
+    BASE_SPEC = ['spec_cores', 'spec_blake2b', 'proof_blake2b', 'verif_extern', 'verif_spec', 'verif_types', 'verif_prelude', 'spec_poly1305', 'spec_aead', 'spec_curve', 'spec_hash']
     for a in sys.argv[1:]:
         if a.startswith('--rlimit='): rl = float(a.split('=')[1])
         if a.startswith('--only='): only = BASE_VC + a.split('=')[1].split(',')
